@@ -29,6 +29,21 @@ pub fn run(id: &'static str, args: &[String]) -> ! {
     let mut w = Tokens::new(cfg.clone());
 
     if let Some(r) = ctx.replay.clone() {
+        if r["case"]["world"].as_str() == Some("oauth2-sessions") {
+            use crate::worlds::oauth::{Cfg as OCfg, Mutation, OAuthW, Op as OOp};
+            let ocfg = OCfg { clients: vec![0], max_codes: 1, max_sets: 3, lifecycle: true, ticks: vec![1], pre_ops: vec![OOp::Authorise(0, 1), OOp::Exchange(0, Mutation::None), OOp::Refresh(0, 0)], legacy_crypto: false, key_revocation: false, cred_replacement: true, only_keys: vec!["dead_token_", "refresh_of_dead_session"] };
+            let mut ow = OAuthW::new(ocfg);
+            match forkdfs::replay(&mut ow, &r["case"]["trace"]) {
+                Ok(v) => {
+                    for (k, what) in v {
+                        println!("{k}: {what}");
+                        ctx.violation(&k, &what, r["case"].clone());
+                    }
+                }
+                Err(e) => ctx.machinery_error(e),
+            }
+            ctx.finish();
+        }
         match forkdfs::replay(&mut w, &r["case"]["trace"]) {
             Ok(v) => {
                 for (k, what) in v {
@@ -44,7 +59,7 @@ pub fn run(id: &'static str, args: &[String]) -> ! {
     let opts = Opts {
         depth,
         procs: ctx.opt_u64("procs").map(|p| p as usize).unwrap_or(2),
-        deadline_s: if quick { 45.0 } else { 1500.0 },
+        deadline_s: if quick && id == "C36" { 30.0 } else if quick { 45.0 } else { 1500.0 },
         log2_slots: 22,
         dedup: true,
         max_samples: 6,
@@ -64,8 +79,21 @@ pub fn run(id: &'static str, args: &[String]) -> ! {
     ctx.set("bound", format!("every sequence of <= {depth} operations; at most {} tokens alive in the history; after EVERY operation every token ever issued is presented again", cfg.max_tokens));
     ctx.set("depth", u64::from(depth));
     ctx.set("alphabet", json!({"logins": ["password (privileged or not)", "password with the session record lost", "anonymous", if cfg.trust { "OAuth2 trust provider (privileged requested or not)" } else { "-" }], "api_tokens": cfg.api, "reauth": cfg.reauth, "logout_and_destroy": true, "validity_window_edits": cfg.validity, "credential_replacement": cfg.changepw, "ticks_s": cfg.ticks}));
-    ctx.set("exhaustive", !rep.capped);
-    if rep.capped {
+    let mut capped = rep.capped;
+    if id == "C36" {
+        // second half of the statement: OAuth2 sessions whose parent login session was revoked
+        // (by replacing the credential it was made with, or by logging it out) stop being usable
+        use crate::worlds::oauth::{Cfg as OCfg, Mutation, OAuthW, Op as OOp};
+        let ocfg = OCfg { clients: vec![0], max_codes: 1, max_sets: 3, lifecycle: true, ticks: vec![1], pre_ops: vec![OOp::Authorise(0, 1), OOp::Exchange(0, Mutation::None), OOp::Refresh(0, 0)], legacy_crypto: false, key_revocation: false, cred_replacement: true, only_keys: vec!["dead_token_", "refresh_of_dead_session"] };
+        let odepth = if quick { 2 } else { 4 };
+        let mut ow = OAuthW::new(ocfg);
+        let oopts = Opts { depth: odepth, procs: 2, deadline_s: if quick { 15.0 } else { 400.0 }, log2_slots: 22, dedup: true, max_samples: 2, par_depth: 1 };
+        let orep = forkdfs::run_into_ctx(&mut ctx, &mut ow, &oopts, "oauth2-sessions");
+        capped |= orep.capped;
+        ctx.set("oauth2_world", json!({"depth": odepth, "states": orep.states, "transitions": orep.transitions, "capped": orep.capped, "outcomes": orep.outcomes.keys().collect::<Vec<_>>(), "operations": ["replace the credential of the parent login session", "log the parent session out", "revoke", "refresh", "replay a rotated refresh token", "expire the account", "time past the grace window"]}));
+    }
+    ctx.set("exhaustive", !capped);
+    if capped {
         ctx.assume("the wall-clock cap was hit: the search is complete only below the stated depth");
     }
     ctx.assume("states are merged on the model of every token (recorded / revoked / ages relative to now), which tokens share a session, and the account validity flags");
